@@ -98,6 +98,11 @@ func (ve *VimeoExtractor) getDataFromSrcURL(srcURL string) (string, map[string]s
 		srcURL = "http:" + srcURL
 	}
 
+	// ParseRequestURI assumes there is no fragment
+	if i := strings.IndexByte(srcURL, '#'); i >= 0 {
+		srcURL = srcURL[:i]
+	}
+
 	parsedURL, err := nurl.ParseRequestURI(srcURL)
 	if err != nil {
 		return "", nil
